@@ -179,6 +179,7 @@ func c06units(tier string) []mc.Unit {
 		r.AddTransitions(cnt)
 		r.AddNontrivial(cnt)
 	}})
+	us = append(us, historyUnit("api-histories", codonMenu()[:8], 3))
 	// ids the library must offer
 	us = append(us, mc.Unit{Name: "ids", Run: func(r *mc.Recorder) {
 		r.Bound("ids", fmt.Sprint(c06ids()))
